@@ -462,6 +462,61 @@ def install_lock_seam(prefix: str = "sqllineage") -> None:
     threading._verif_lock_seam = True  # type: ignore
 
 
+class _ShimThread:
+    """What ``threading.enumerate()`` / ``current_thread()`` show of a simulated thread."""
+
+    def __init__(self, st: "SimThread"):
+        self._st = st
+        self.ident = st.ident
+        self.native_id = st.ident
+        self.name = st.name
+        self.daemon = True
+
+    def is_alive(self) -> bool:
+        return not self._st.done
+
+    def __repr__(self) -> str:
+        return f"<SimThread {self.name} ident={self.ident}>"
+
+
+class ThreadingShim:
+    """What a sqllineage module sees as ``threading`` (seam S1): the real module, except that thread *identity* is
+    the simulator's - ``get_ident()`` is the simulated identifier (so that identifier reuse can be scheduled) and
+    ``enumerate()`` / ``current_thread()`` / ``active_count()`` list the simulated threads that are alive, by that
+    identifier.  A simulated thread whose ``ctx["foreign"]`` is set is a thread the ``threading`` module does not know
+    (started through ``_thread.start_new_thread`` or created by C code - a uWSGI / mod_wsgi request thread): it has an
+    identifier like any other but is not listed."""
+
+    def __getattr__(self, name):
+        return getattr(threading, name)
+
+    @staticmethod
+    def get_ident():
+        t = current()
+        return t.ident if t is not None else threading.get_ident()
+
+    @staticmethod
+    def _alive():
+        t = current()
+        if t is None:
+            return None
+        return [x for x in t.sched.threads if not x.done and all(w.done for w in x.wait_for) and not x.ctx.get("foreign")]
+
+    def enumerate(self):
+        alive = self._alive()
+        if alive is None:
+            return threading.enumerate()
+        return [threading.main_thread()] + [_ShimThread(x) for x in alive]
+
+    def active_count(self):
+        alive = self._alive()
+        return threading.active_count() if alive is None else 1 + len(alive)
+
+    def current_thread(self):
+        t = current()
+        return threading.current_thread() if t is None else _ShimThread(t)
+
+
 class no_preempt:
     """Context manager: LINE events inside do not yield (oracle probes)."""
 
